@@ -57,9 +57,9 @@ def plan(tier, seed):
                     for pb in (1, 2, 4):
                         if kind != "positive" and (N > 2 or pb == 4 or (tier == "quick" and (e0 == 0 or E == 0))):
                             continue
-                        for cbl in ("R", "RS", "SR", "RSR", "LS"):
+                        for cbl in ("R", "RS", "SR", "RSR", "LS", "DT"):
                             for timer in (False, True):
-                                if timer and cbl in ("R", "LS") and tier == "quick":
+                                if timer and cbl in ("R", "LS", "DT") and tier == "quick":
                                     continue
                                 cfgs.append(dict(kind=kind, e0=e0, E=E, N=N, pb=pb, cbl=cbl, timer=timer))
                                 if cbl == "RS" and not timer and N == 2 and kind == "positive":
@@ -131,6 +131,15 @@ def make_callbacks(cfg, tape, glog, state):
         def on_batch_end(self, nn, ep, b):
             self._ev(nn, "batch_end", ep, b)
 
+    class Derived(Rec):
+        """second-level subclass: every hook is INHERITED from an intermediate callback class (what a user's
+        `class Stopper(Recorder)` or the library's VarianceBasedEarlyStopping(EarlyStopping) looks like)"""
+
+    class DerivedOne(Rec):
+        """overrides one hook, inherits the other five"""
+        def on_epoch_end(self, nn, ep):
+            super().on_epoch_end(nn, ep)
+
     def lam(cid):
         r = Rec(cid)
         return L.callbacks.LambdaCallback(
@@ -146,6 +155,11 @@ def make_callbacks(cfg, tape, glog, state):
             pos = i
         elif ch == "L":
             out.append(lam(i))
+        elif ch == "D":
+            out.append(Derived(i))
+        elif ch == "T":
+            out.append(DerivedOne(i, inject=True))
+            pos = i
         else:
             out.append(Rec(i))
     for i in range(len(out)):
@@ -334,7 +348,7 @@ def replay(case):
     else:
         cfg = {k: case[k] for k in ("kind", "e0", "E", "N", "pb", "cbl", "timer", "negb", "extras") if k in case}
         pre = case.get("pre", False)
-    viols, tr, nev = run_fit(cfg, T.Tape(case["tape"]), pre)
+    viols, tr, nev = run_fit(cfg, T.Tape(case["tape"], lenient=True), pre)
     acc.ev(1)
     for sig, detail in viols:
         acc.viol(sig, case, detail=detail)
